@@ -469,12 +469,36 @@ func c08run(r *ev.Run) {
 					do(c, "stmt "+fmt.Sprintf(c08positions[pi].tmpl, c.spelling()))
 				}
 			}
+			// three components: over the first, a middle and the last count of each unit's ladder (quick: four units)
+			var three3 []c08comp
+			for ui := range c08units {
+				if !th && !(ui == 0 || ui == 5 || ui == 6 || ui == 8) {
+					continue
+				}
+				var of []c08comp
+				for _, k := range two {
+					if k.Unit == ui {
+						of = append(of, k)
+					}
+				}
+				if len(of) > 0 {
+					three3 = append(three3, of[0], of[len(of)/2], of[len(of)-1])
+				}
+			}
+			for i := range three3 {
+				for j := range three3 {
+					for k := range three3 {
+						c := c08Case{Kind: "stmt", Neg: neg, Comps: []c08comp{three3[i], three3[j], three3[k]}, Pos: pi}
+						do(c, "stmt "+fmt.Sprintf(c08positions[pi].tmpl, c.spelling()))
+					}
+				}
+			}
 		}
 	})
 	r.Set("spellings_accepted", accepted)
 	r.Set("spellings_rejected", rejected)
 	r.Set("statement_positions", len(c08positions))
 	r.Set("format_range", fmt.Sprintf("[-%d,%d] plus %d boundary values", lim, lim, len(fvals)))
-	r.Rule = "ParseDuration on every 1-, 2- and 3-component spelling over a per-unit boundary ladder (around MaxInt64/unit and 2^64/unit), both signs, against math/big; FormatDuration on every d in the stated range and on k*unit, k*unit±1; the same spellings as literals in every duration slot of a statement. state = distinct spelling/value/statement; non-trivial = spelling accepted by ParseDuration (or a formatted value / statement case)"
+	r.Rule = "ParseDuration on every 1-, 2- and 3-component spelling over a per-unit boundary ladder (around MaxInt64/unit and 2^64/unit), both signs, against math/big; FormatDuration on every d in the stated range and on k*unit, k*unit±1; the same spellings (one and two components, and three components over three counts per unit) as literals in every duration slot of a statement. state = distinct spelling/value/statement; non-trivial = spelling accepted by ParseDuration (or a formatted value / statement case)"
 	r.Assumptions = []string{"math/big is the arithmetic reference", "a rejected in-range spelling is not a C08 violation (the property allows an error); acceptance of legal durations is C01's"}
 }
